@@ -50,6 +50,8 @@ func paramType(t string) *openfgav1.ConditionParamTypeRef {
 	switch t {
 	case "int":
 		return &openfgav1.ConditionParamTypeRef{TypeName: openfgav1.ConditionParamTypeRef_TYPE_NAME_INT}
+	case "uint":
+		return &openfgav1.ConditionParamTypeRef{TypeName: openfgav1.ConditionParamTypeRef_TYPE_NAME_UINT}
 	case "string":
 		return &openfgav1.ConditionParamTypeRef{TypeName: openfgav1.ConditionParamTypeRef_TYPE_NAME_STRING}
 	case "bool":
@@ -121,7 +123,7 @@ func FromProto(pm *openfgav1.AuthorizationModel) (*Model, error) {
 	for _, n := range cn {
 		pc := pm.GetConditions()[n]
 		c := &Cond{Name: n, Family: "opaque", Params: map[string]string{}}
-		for _, f := range []string{"int_lt", "str_eq", "bool_is", "in_list"} {
+		for _, f := range []string{"int_lt", "str_eq", "bool_is", "in_list", "uint_lt"} {
 			tmp := &Cond{Family: f}
 			if tmp.CELExpr() == pc.GetExpression() {
 				c.Family = f
